@@ -36,6 +36,16 @@ def q(s):
     return '"%s"' % s
 
 
+def subst(node, env):
+    if isinstance(node, tuple):
+        if len(node) == 2 and node[0] == 'id' and node[1] in env:
+            return env[node[1]]
+        return tuple(subst(x, env) for x in node)
+    if isinstance(node, list):
+        return [subst(x, env) for x in node]
+    return node
+
+
 class Lower:
     def __init__(self, what, acc=False):
         self.what = what
@@ -43,6 +53,8 @@ class Lower:
         self.locals = set()
         self.dimvar = None        # the range-for variable over the groups
         self.ignored = set()      # locals that only feed the trace (const char* prefix)
+        self.refs = {}            # reference locals: name -> the expression they alias (substituted)
+        self.lambdas = {}         # local lambdas: name -> lambda node
 
     def bad(self, msg, node):
         raise mc.Unsupported('%s: %s: %s' % (self.what, msg, mc.show(node)))
@@ -63,6 +75,8 @@ class Lower:
             return 'ADimSize'
         if self.dimvar and k == 'call' and x[1] == ('id', 'std::count_if') and len(x[2]) == 3:
             a = x[2]
+            if a[2][0] == 'id' and a[2][1] in self.lambdas:
+                a = [a[0], a[1], self.lambdas[a[2][1]]]
             if (a[0] == ('call', ('member', ('id', self.dimvar), 'begin', False), []) and a[1] == ('call', ('member', ('id', self.dimvar), 'end', False), [])
                     and a[2][0] == 'lambda' and len(a[2][2]) == 1
                     and a[2][3] == ('block', [('return', ('member', ('member', ('id', a[2][2][0]), 'second', False), 'has_concrete_classes', False))])):
@@ -71,6 +85,13 @@ class Lower:
             return '(AReport %s)' % FIELDS[x[2]]
         if self.acc and k == 'member' and x[1] == ('id', 'partial') and x[2] in FIELDS:
             return '(APartial %s)' % FIELDS[x[2]]
+        if self.acc and k == 'call' and x[1][0] == 'id' and x[1][1] in self.lambdas and len(x[2]) == 1:
+            lam = self.lambdas[x[1][1]]
+            if len(lam[2]) == 1:
+                pv = ('id', lam[2][0])
+                nz = ('bin', '!=', pv, ('num', 0))
+                if lam[3] in (('block', [('return', nz)]), ('block', [('return', ('cond', nz, ('num', 1), ('num', 0)))])):
+                    return self.e(('bin', '!=', x[2][0], ('num', 0)))
         if self.acc and k == 'bin' and x[1] == '!=' and x[3] == ('num', 0) and x[2][0] == 'member' and x[2][1] == ('id', 'partial') and x[2][2] in FIELDS:
             return '(APartialNonZero %s)' % FIELDS[x[2][2]]
         self.bad('expression not in the subset', x)
@@ -95,9 +116,27 @@ class Lower:
         return r
 
     def s(self, st):
+        if self.refs:
+            st = subst(st, self.refs)
         k = st[0]
         if k == 'block':
             return self.seq(st[1])
+        if k == 'decl' and len(st[2]) == 1 and st[2][0][1] is not None and st[2][0][1][0] == 'lambda':
+            self.lambdas[st[2][0][0]] = st[2][0][1]
+            return 'ASkip'
+        if k == 'decl' and len(st[2]) == 1 and st[2][0][1] is not None and st[1].rstrip().endswith('&'):
+            # auto& r = m.report;   const auto& g = groups[dim - 1];    a reference: every use stands for the expression
+            self.refs[st[2][0][0]] = st[2][0][1]
+            return 'ASkip'
+        if k == 'while' and not self.acc and st[1][0] == 'bin' and st[1][1] == '<' and st[1][2][0] == 'id' and st[1][2][1] in self.locals:
+            # size_t x = a; ... while (x < b) { body; ++x; }     is     for (x = <current x>; x < b; ++x) body
+            x = st[1][2][1]
+            body = nonempty(st[2][1] if st[2][0] == 'block' else [st[2]])
+            if body and body[-1] in (('expr', ('un', '++', ('id', x))), ('expr', ('post', '++', ('id', x)))) and repr(('id', x)) not in repr([b for b in body[:-1] if b[0] == 'expr' and b[1][0] == 'assign' and b[1][2] == ('id', x)]):
+                upto = self.e(st[1][3])
+                b = self.seq(body[:-1])
+                return '(AForDim %s (AVar %s) %s\n  %s)' % (q(x), q(x), upto, b)
+            self.bad('while loop not of the form `while (x < b) { ...; ++x; }`', st)
         if k == 'decl' and len(st[2]) == 1:
             name, init = st[2][0]
             if re.sub(r'\s', '', st[1]) == 'constchar*':
